@@ -52,3 +52,9 @@ def run(chk):
     chk.assumptions += ["locksets are observed by interposing pthread_mutex_lock/trylock/unlock in the driver; accesses are observed at the guarded probe sites only",
                         "Eraser-style lockset discipline: a conflicting pair with disjoint locksets is reported even if the two accesses were ordered by chance in this run",
                         "accesses before the daemon's threads exist (construction) are not recorded; the scenario arms the probes before start_transport"]
+
+
+def replay(chk, path):
+    """the concurrency scenario is not scripted (threads, rounds and seed are fixed by the check): a replay re-runs it and
+    reports the racing site pairs it observes, which is what the replay file of a C36 violation records"""
+    run(chk)
